@@ -443,7 +443,11 @@ def matches(v, T):
             return isinstance(v, bool)
         if T[1].startswith("float"):
             return isinstance(v, float)
-        return isinstance(v, int) and not isinstance(v, bool)
+        if not (isinstance(v, int) and not isinstance(v, bool)):
+            return False
+        bits = int(T[1].lstrip("uint"))
+        lo, hi = (0, 2**bits - 1) if T[1].startswith("uint") else (-2**(bits - 1), 2**(bits - 1) - 1)
+        return lo <= v <= hi
     if k == "list":
         return isinstance(v, list) and all(matches(x, T[1]) for x in v)
     if k == "regular":
